@@ -679,6 +679,16 @@ class IntoVariant(Unary):
             self.done(ch, pack)
 
 
+class AnySender(Unary):
+    # any_sender_of<Values...> forwards completions unchanged; of the receiver queries only the stop token
+    # (through the inplace_stop_token adapter) reaches the wrapped operation
+    def child_env(self, env):
+        tok = env.tok
+        if not tok.static_possible:
+            tok = Tok(possible=False)   # a default inplace_stop_token: never stopped, stoppable type
+        return Env(tok, -1, 0, -1)
+
+
 class Allocate(Unary):
     def connect(self, env):
         self.sim.alloc_expected.append(env.alloc)
@@ -920,6 +930,7 @@ CLASSES = {
     "with_query": WithQuery, "unstoppable": Unstoppable,
     "materialize": Materialize, "dematerialize": Dematerialize,
     "done_as_optional": DoneAsOptional, "into_variant": IntoVariant, "allocate": Allocate,
+    "any_sender": AnySender,
     "lvw_stop_source": LVWStopSource, "lvw_stop_token": LVWStopToken, "let_value_with": LetValueWith,
     "when_all": WhenAll, "stop_when": StopWhen,
     "retry_when": RetryWhen, "repeat_effect_until": RepeatEffectUntil,
